@@ -543,8 +543,7 @@ func rewriteFile(res *Result, rw *fileRW, f *ast.File, info *types.Info, p *list
 			for _, st := range x.Body.List {
 				cc := st.(*ast.CommClause)
 				if cc.Comm == nil {
-					hasDefault = true
-					rw.replace(cc.Case, cc.Colon+1, "case -1:")
+					hasDefault = true // stays the switch's default clause (keeps the statement terminating if it was)
 					continue
 				}
 				hdr := fmt.Sprintf("case %d:", idx)
@@ -577,6 +576,11 @@ func rewriteFile(res *Result, rw *fileRW, f *ast.File, info *types.Info, p *list
 			}
 			head += "); _vs.Idx {"
 			rw.replace(x.Select, x.Body.Lbrace+1, head)
+			if !hasDefault {
+				// a select without default never falls through; give the switch a default clause
+				// so that it is a terminating statement whenever the select was
+				rw.insert(x.Body.Rbrace, "default: panic(vsched.SelectPanic(_vs)); ")
+			}
 			need["vsched"] = true
 			hit("R3 select")
 		case *ast.FuncDecl:
